@@ -24,7 +24,7 @@ def pick(mod, ids, prefix, hdir):
     return out
 IDENT = dict(id="sleep_identity", kind="native", harness="sleep_identity.c", entry="main", sources=[], what="(ms/1000)*10^9 + (ms%1000)*10^6 == ms*10^6 and nsec < 10^9 for all 2^32 ms", timeout=600)
 UNITS = [SLEEP, IDENT] + pick(c06, ["acquire", "new", "lemma_recovery"], "sem_", "C06") + pick(c07, ["new", "lock_unlock"], "shm_", "C07") + \
-        pick(c09, ["io_condition_wait", "send", "receive", "send_to", "receive_from", "connect", "accept"], "sock_", "C09")
+        pick(c09, ["errmap", "io_condition_wait", "send", "receive", "send_to", "receive_from", "connect", "accept"], "sock_", "C09")
 REQUIRE_CONFIGURED = ["puthread.c"]
 TECHNIQUE = "CBMC function contracts with loop contracts on every EINTR retry loop of the real code (p_uthread_sleep, semaphore, shared memory, sockets): the number of interruptions is unbounded"
 LEVEL_TEXT = ("p_uthread_sleep: for every duration and every sequence of interruptions (each reporting any remainder <= the request) the loop invariant 'remaining request + time slept "
